@@ -1,4 +1,4 @@
-import RsslVerif.Model.ConstEval
+import RsslVerif.Model.ConstEvalWf
 import RsslVerif.Driver.Util
 /-! Line-protocol front end of the C13 model: `C13.eval <ir s-expression> [src:...]`. -/
 namespace RsslVerif.Driver.C13
@@ -160,6 +160,13 @@ def handle (op : String) (args : List String) : String :=
     match parseTree tree with
     | some e => showRes (eval e)
     | none => "bad-request"
+  | "C13.hyp", tree :: _ =>
+    -- the hypotheses of `consteval_agrees` / `consteval_no_panic`, evaluated on a tree the type checker emitted
+    match parseTree tree with
+    | some e => "wf=" ++ (if wfE e then "1" else "0") ++ " kinds=" ++ (if kindsOk e then "1" else "0")
+    | none => "bad-request"
+  | "C13.pos", _ => "unsupported: positions are judged by the reference evaluator only"
+  | "C13.src", _ => "unsupported: front-end outcome, outside the evaluator model"
   | _, _ => "unsupported-op"
 
 end RsslVerif.Driver.C13
